@@ -14,7 +14,10 @@ CASE_TIMEOUT = 60
 VARIANT = os.environ.get("C16_VARIANT", "code_now")   # coq/C16/Model.v: code_now (fix 7b727b3, cache dict bound once per call) | code_before_fix | code_pre1948
 
 RULE = ("hist: one real Process over a fake /proc driven by random sequences of enter / exit / nested enter / raise-in-body / "
-        "method call (10 methods over stat, status, smaps, statm) / source change (new version, denied, process gone), 5-40 events, "
+        "method call (11 modelled methods over stat, status, smaps, statm, plus the real cmdline / environ / open_files / threads / "
+        "as_dict(['cmdline']) whose answers are lists and dicts) / in-place mutation by the caller of an earlier answer (clear, append, "
+        "pop, nested) / source change (new version, denied, process gone), 5-40 events, plus directed call-mutate-call-again patterns "
+        "inside, nested in and after a block; "
         "values and per-call open counts of stat/status/smaps/statm compared; sched: one thread using oneshot() plus 1-2 threads "
         "calling plain methods plus a thread changing the sources, run under explicit line-level schedules (random segments, "
         "directed pre-emption patterns, and in thorough an enumeration of up to 3 pre-emption points); asdict: attrs None / "
@@ -254,7 +257,7 @@ def directed_stale(m1, m2, a, b, c, d=4):
 
 def gen_cases(rng, tier):
     cases = []
-    n_hist = {"quick": 500, "thorough": 12000, "search": 1500}[tier]
+    n_hist = {"quick": 440, "thorough": 12000, "search": 1500}[tier]
     n_sched = {"quick": 300, "thorough": 4000, "search": 600}[tier]
     n_ad = {"quick": 120, "thorough": 1500, "search": 300}[tier]
     # ---- single-thread histories
@@ -1082,7 +1085,7 @@ def impl_run(case, coq, env):
 
 
 MANIFEST = {
-    "text": "Theorems (Coq 8.16, 22, all closed under the global context; coq/Properties/C16.v). One thread, every history of "
+    "text": "Theorems (Coq 8.16, 26, all closed under the global context; coq/Properties/C16.v). One thread, every history of "
             "enter/exit/nested enter/exception in the body/call/source change (new content, denied, process gone): the model "
             "of memoize_when_activated + oneshot() + the Linux memoized readers produces, call by call, the answers and per-call "
             "read counts of a ghost machine written from the property text (first successful read in the block is kept, "
@@ -1097,7 +1100,9 @@ MANIFEST = {
             "block around the requested calls with ad_value for AccessDenied/ZombieProcess, NoSuchProcess propagating, exactly "
             "the requested keys (checked against the generated table of _as_dict_attrnames); attrs elements of any hashable type: "
             "a collection with at least one element that is not an acceptable name is rejected with ValueError, state untouched, "
-            "for all element types and counts. Threads, every interleaving at "
+            "for all element types and counts. Answers are values: the table of memoize_when_activated methods generated from the "
+            "source equals the model's (4 front-level keys, 3 readers) and contains no method returning a list/dict, and on a machine "
+            "about object identity no call ever hands out an object the caller has mutated (refuted were cmdline() cached). Threads, every interleaving at "
             "source-line granularity, any number of threads and programs, no bound on length: no AttributeError/KeyError of "
             "the cache plumbing reaches a caller (refuted for the pre-issue-1948 wrapper); every value held by any cache dict "
             "was read after that dict was created (refuted for the wrapper before commit 7b727b3, witness schedule replayed on "
